@@ -78,6 +78,33 @@ DIRECTED_LOOPS = [
 ]
 
 
+# pairs of programs that end with the SAME data reachable by the program (same objects of every kind), reached through different
+# histories: what the first history could reach only while it ran must be gone after a collection, so the censuses are equal
+TWINS = [
+    ("closure-over-innermost-frame-only",
+     "fn deep(n) { var x = [n, n, n]; var c = || x; if n == 0 { return c; } return deep(n - 1); }\nvar keep = deep(20);\nprint(keep().len());\n",
+     "fn deep(n) { var x = [n, n, n]; if n == 0 { var c = || x; return c; } var r = deep(n - 1); x = nil; return r; }\nvar keep = deep(20);\nprint(keep().len());\n"),
+    ("closure-next-to-a-dropped-closure",
+     "fn mk() { var a = [1]; var b = [2]; var fa = || a; var fb = || b; return fb; }\nvar keep = mk();\nprint(keep());\n",
+     "fn mk() { var b = [2]; var fb = || b; return fb; }\nvar keep = mk();\nprint(keep());\n"),
+    ("finished-fibers-kept",
+     "var fs = [];\nfor i in 0..10 { var f = Fiber.new(|| { var big = [i, i, i]; return big.len(); }); f.call(); fs.push(f); }\nprint(fs.len());\n",
+     "var fs = [];\nfor i in 0..10 { var f = Fiber.new(|| { return 3; }); f.call(); fs.push(f); }\nprint(fs.len());\n"),
+    ("finished-fiber-that-called-a-function",
+     "fn work(v) { var t = (v, v); return t[0].len(); }\nvar f = Fiber.new(|| { var big = [1, 2, 3]; return work(big); });\nprint(f.call());\n",
+     "var f = Fiber.new(|| { return 3; });\nprint(f.call());\n"),
+    ("fiber-that-caught-its-own-failure",
+     "var f = Fiber.new(|| { var big = [1, 2, 3]; try { throw big; } catch e { return e.len(); } });\nprint(f.call());\n",
+     "var f = Fiber.new(|| { return 3; });\nprint(f.call());\n"),
+    ("suspended-fiber-dropped",
+     "var f = Fiber.new(|| { var big = [1, 2, 3]; Fiber.yield(big.len()); return 0; });\nprint(f.call());\nf = nil;\n",
+     "var f = Fiber.new(|| { return 3; });\nprint(f.call());\nf = nil;\n"),
+    ("loop-variable-closure",
+     "var keep = nil;\nfor i in 0..5 { var v = [i]; var c = || v; if i == 4 { keep = c; } }\nprint(keep());\n",
+     "var keep = nil;\n{ var v = [4]; keep = || v; }\nprint(keep());\n"),
+]
+
+
 def directed_loop(body, iters):
     return "var prev = nil;\nvar i = 0;\nwhile i < %d {\n    %s\n    i = i + 1;\n}\nprint(\"done\");\n" % (iters, body)
 
@@ -208,6 +235,30 @@ def correspondence(ctx, model_ok=True):
         if not same_census(ca, cb):
             failures.append({"what": "running a loop twice as long leaves more objects behind", "program_n": a, "program_2n": b,
                              "census_n": ca, "census_2n": cb, "signature": "census grows with iterations", "failing_input": True})
+    # twins: the same reachable data through two histories
+    tw_cases = []
+    for name, a, b in TWINS:
+        tw_cases.append(vlib.case_line("twin-%s-a" % name, ["S:" + vlib.hx(a), "G"], gc="default", steps=50000000))
+        tw_cases.append(vlib.case_line("twin-%s-b" % name, ["S:" + vlib.hx(b), "G"], gc="default", steps=50000000))
+    treal = vlib.run_real(runner, tw_cases)
+    for i, (name, a, b) in enumerate(TWINS):
+        ra, rb = treal[2 * i], treal[2 * i + 1]
+        try:
+            ok_run = ra["steps"][0].get("status") == "ok" and rb["steps"][0].get("status") == "ok" and ra["steps"][0].get("printed") == rb["steps"][0].get("printed")
+            ca, cb = census(ra["steps"][1]["stats"]), census(rb["steps"][1]["stats"])
+        except Exception:
+            failures.append({"what": "census run failed", "program": a, "observed": str(ra)[:300], "signature": "census run failed", "failing_input": True})
+            continue
+        cen_checked += 1
+        # the two histories differ in how many closures / cells / fibers they keep; the DATA objects they keep must be the same
+        data = ("ObjVec", "ObjTuple", "ObjHashMap", "ObjInstance")
+        da = {k: ca.get(k, 0) for k in data}
+        db = {k: cb.get(k, 0) for k in data}
+        if not ok_run or da != db:
+            failures.append({"what": "two programs that end with the same reachable data leave different data objects on the heap after a collection: "
+                                     "something the program can no longer reach is retained (%s vs %s)" % (da, db),
+                             "name": "twin:" + name, "program": a, "twin": b, "census_a": ca, "census_b": cb,
+                             "signature": "twin census differs: " + name, "failing_input": True})
     # transient programs vs the empty program
     n_tr = 20 if ctx.thorough else 6
     tr_srcs = [transient_program(rng.fork("t%d" % i)) for i in range(n_tr)]
